@@ -19,7 +19,7 @@ Models (C15/Model.v)
   (C) _convenience.rename_values: dedup of pairs, grouping by graph, validation, pops, renames, re-adds, each
       container operation with the exceptions it can raise (GraphInitializers.__setitem__/__delitem__).
 
-Theorems (Property.v; 23, all closed)
+Theorems (Property.v; 31, all closed)
   (A) full: C15_gen_fuel_suffices, C15_fresh, C15_fresh_node (for EVERY history of register calls with arbitrary
       explicit names: a generated name is outside the seen set before the call, outside the initial set, and
       differs from every name of its kind registered or generated earlier), C15_monotone, C15_explicit_kept,
@@ -28,9 +28,19 @@ Theorems (Property.v; 23, all closed)
       an unnamed object is not in the LOG of names the graph registered or assigned so far; ProofsA3);
       C15_ctor_generated_equals_present (stronger reading 'not present in the graph being built', true since fix
       f54d66f: explicit names are registered before unnamed inputs are named; was refuted before).
-  (B) all full for the fixed code (25cf9b5), under the hypotheses named in Property.v
+  (GEN) per-run translation: translate_c15 (below) turns NameAuthority._unique_value_name / _unique_node_name /
+      register_or_name_value / register_or_name_node and naming._find_and_record_next_unique_name,
+      SimpleNameGenerator.generate_*_name, NameFixPass._assign_*_name / _fix_duplicate_*_name statement by statement
+      into Gallina (Gen/C15Gen.v; fail-closed: anything outside the subset is a broken obligation); C15/GenEquiv.v proves
+      the hand models EQUAL to it: C15_gen_register_value / _node (= astep), C15_gen_find_and_record (= find_unique),
+      C15_gen_value_decision / _node_decision, C15_gen_process_value / _process_node_name (the hand models are exactly
+      that decision + the hand-modelled Value.name setter).  Not translated (hand model + tie only): the Value.name
+      setter, _process_value's seen test, _fix_graph_names' traversal and scope stacks, _collect_existing_names,
+      rename_values.
+  (B) all full for the fixed code (25cf9b5, 5fabe37), under the hypotheses named in Property.v
       (WF0 = clause I5 of the C01 invariant; closed_run = every initializer the traversal meets belongs to a graph it
-      enters; well_scoped = every value is first met in its own graph's scope or an enclosing one; NoDup nodes):
+      enters; well_scoped2 = every value is first met in the scope of its graph, of an enclosing graph, or of a graph nested in its
+      owner (capture from an enclosing graph in any order, handled by the code since 5fabe37; ProofsB16/B17); NoDup nodes):
       C15_fix_fuel_suffices;
       C15_fix_total (whole pass never raises, returns a well-formed state, same initializer sets; invariant
       ProofsB4.TInv: every key of an entered graph is the value's original name (pre-scanned) or <orig>_<j>,
@@ -43,8 +53,7 @@ Theorems (Property.v; 23, all closed)
       (ProofsB8), and the naive scopes are exactly the nested graphs (ProofsB12/B13, custom induction))
       + C15_fix_post_sibling_refuted (a scoping hypothesis is still needed: known finding) +
       C15_fix_post_unsorted_witness_fixed (fix 5fabe37; the model records captured names in the owner's and the
-      intermediate scopes: Model.record_captured; captures from enclosing graphs are outside well_scoped and covered by
-      the tie only) + Example ex_sorted_hyps;
+      intermediate scopes: Model.record_captured; the witness satisfies well_scoped2) + Example ex_sorted_hyps;
       C15_fix_never_worse (ANY scoping, no hypothesis but 'did not raise': a changed name is new to the graph_like;
       equal names afterwards = both kept or both renamed);
       C15_fix_keeps_unique / C15_fix_keeps_unique_node (+ C15_fix_keeps_unique_shared_refuted: disjointness is needed; whole pass: main graph and functions meeting disjoint
@@ -185,6 +194,425 @@ Definition nm (s : string) : name := List.map N_of_ascii (list_ascii_of_string s
 def case_file(body: str) -> str:
     """Header + the name table used by `body` (call after the body has been printed)."""
     return CASE_HEADER + NT.defs() + body
+
+# =========================================================================== translation of the naming primitives
+# Statement-by-statement, fail-closed ast -> Gallina translation of the five functions every seeded change of C15 has
+# edited so far; coq/theories/C15/GenEquiv.v proves the hand models equal to the generated definitions.
+import ast  # noqa: E402
+
+
+class Unsupported(Exception):
+    """The source left the subset the C15 translator understands (fail closed)."""
+
+
+GEN_HEADER = """(* GENERATED by harness/props/c15.py (translate_c15) from the Python sources on every run - do not edit.
+   Statement-by-statement translation of
+     onnx_ir/_name_authority.py : NameAuthority._unique_value_name, _unique_node_name, register_or_name_value,
+                                  register_or_name_node
+     onnx_ir/passes/common/naming.py : _find_and_record_next_unique_name, SimpleNameGenerator.generate_value_name /
+                                  generate_node_name, NameFixPass._assign_value_name / _fix_duplicate_value_name /
+                                  _assign_node_name / _fix_duplicate_node_name  (`value.name = e` is the REQUEST made to
+                                  the Value.name setter; the setter itself is hand-modelled: Model.set_vname)
+   Conventions: str -> name (code points), int -> N, set[str] -> list name (mem / sadd), Counter[str] -> list (name * N)
+   (cnt_get / cnt_set), f"..{e}.." -> concatenation with dec for ints, `while` -> Fixpoint on explicit fuel whose
+   exhaustion is None.  A function returns Some (result, (written variables...)).  C15/GenEquiv.v proves these equal
+   to the hand-written model of C15/Model.v. *)
+From Coq Require Import NArith List Bool.
+From IRV Require Import Base.Exn C15.Model.
+Import ListNotations.
+Open Scope N_scope.
+"""
+
+
+def cstring(s: str) -> str:
+    return "[" + "; ".join(str(ord(c)) for c in s) + "]"
+
+
+class Fn:
+    """One function.  vars: python lvalue text -> (coq identifier, coq type)."""
+
+    def __init__(self, fdef: ast.FunctionDef, coq_name: str, vars_: dict, ret_type: str, calls: dict):
+        self.f = fdef
+        self.name = coq_name
+        self.vars = dict(vars_)            # declared: parameters / attributes, in signature order
+        self.sig = list(vars_)             # signature order (python texts)
+        self.ret = ret_type
+        self.calls = calls                 # python callee text -> Fn (already translated)
+        self.aux: list[str] = []
+        self.nloops = 0
+        self.written = self._written(fdef.body)
+        self.uses_fuel = any(isinstance(n, ast.While) for n in ast.walk(fdef)) or any(
+            c.uses_fuel for c in calls.values() if any(self._is_call(n, c_txt) for n in ast.walk(fdef) for c_txt in [k for k, v in calls.items() if v is c]))
+
+    @staticmethod
+    def _is_call(n, txt):
+        return isinstance(n, ast.Call) and ast.unparse(n.func) == txt
+
+    # ---- which declared variables does a statement list write
+    def _written(self, stmts) -> list[str]:
+        out: list[str] = []
+
+        def add(t):
+            if t in self.vars and t not in out:
+                out.append(t)
+        for n in ast.walk(ast.Module(body=list(stmts), type_ignores=[])):
+            if isinstance(n, ast.Assign):
+                for t in n.targets:
+                    add(ast.unparse(t))
+            elif isinstance(n, ast.AugAssign):
+                t = n.target
+                add(ast.unparse(t.value) if isinstance(t, ast.Subscript) else ast.unparse(t))
+            elif isinstance(n, ast.Call):
+                if isinstance(n.func, ast.Attribute) and n.func.attr == "add":
+                    add(ast.unparse(n.func.value))
+                txt = ast.unparse(n.func)
+                if txt in self.calls:
+                    callee = self.calls[txt]
+                    for w in callee.written:
+                        add(self._callee_var(callee, w, n))
+        return [v for v in self.sig if v in out]      # signature order
+
+    def _callee_var(self, callee, var_txt, call: ast.Call) -> str:
+        """caller-side python text for a callee variable (attribute of self, or a parameter bound to an argument)."""
+        if var_txt.startswith("self."):
+            return var_txt
+        params = [a.arg for a in callee.f.args.args if a.arg != "self"]
+        i = params.index(var_txt.split(".")[0])
+        arg = ast.unparse(call.args[i])
+        return arg + var_txt[len(var_txt.split(".")[0]):]
+
+    # ---- expressions -> (coq, type)
+    def expr(self, e, loc) -> tuple[str, str]:
+        txt = ast.unparse(e)
+        if txt in loc:
+            return loc[txt]
+        if txt in self.vars:
+            return self.vars[txt]
+        if isinstance(e, ast.Constant):
+            if e.value is True:
+                return "true", "bool"
+            if e.value is False:
+                return "false", "bool"
+            if isinstance(e.value, str):
+                return cstring(e.value), "name"
+            if isinstance(e.value, int):
+                return f"{e.value}", "N"
+            raise Unsupported(f"constant {txt}")
+        if isinstance(e, ast.JoinedStr):
+            parts = []
+            for v in e.values:
+                if isinstance(v, ast.Constant):
+                    parts.append(cstring(v.value))
+                elif isinstance(v, ast.FormattedValue) and v.conversion == -1 and v.format_spec is None:
+                    c, t = self.expr(v.value, loc)
+                    if t == "N":
+                        parts.append(f"dec {c}")
+                    elif t == "name":
+                        parts.append(c)
+                    else:
+                        raise Unsupported(f"f-string field of type {t}: {txt}")
+                else:
+                    raise Unsupported(f"f-string part {ast.dump(v)}")
+            return "(" + " ++ ".join(parts) + ")", "name"
+        if isinstance(e, ast.Subscript):
+            c, t = self.expr(e.value, loc)
+            k, kt = self.expr(e.slice, loc)
+            if t == "list (name * N)" and kt == "name":
+                return f"(cnt_get {k} {c})", "N"
+            raise Unsupported(f"subscript {txt}")
+        if isinstance(e, ast.Compare) and len(e.ops) == 1:
+            a, at = self.expr(e.left, loc)
+            op = e.ops[0]
+            if isinstance(op, (ast.Is, ast.IsNot)) and isinstance(e.comparators[0], ast.Constant) and e.comparators[0].value is None:
+                if at != "option name":
+                    raise Unsupported(f"`is None` on {at}")
+                c = f"(match {a} with None => true | Some _ => false end)"
+                return (c if isinstance(op, ast.Is) else f"(negb {c})"), "bool"
+            b, bt = self.expr(e.comparators[0], loc)
+            if isinstance(op, (ast.In, ast.NotIn)) and at == "name" and bt == "list name":
+                c = f"(mem {a} {b})"
+                return (c if isinstance(op, ast.In) else f"(negb {c})"), "bool"
+            if isinstance(op, (ast.In, ast.NotIn)) and at == "option name" and bt == "list name":
+                c = f"(match {a} with Some y_ => mem y_ {b} | None => false end)"     # None is never in a set of str
+                return (c if isinstance(op, ast.In) else f"(negb {c})"), "bool"
+            raise Unsupported(f"comparison {txt}")
+        if isinstance(e, ast.BoolOp) and isinstance(e.op, ast.Or) and len(e.values) == 2:
+            a, at = self.expr(e.values[0], loc)
+            b, bt = self.expr(e.values[1], loc)
+            if at == "option name" and bt == "name":      # `x.name or "lit"`: None and "" are falsy
+                return f"(match {a} with Some (c_ :: r_) => c_ :: r_ | _ => {b} end)", "name"
+        if isinstance(e, ast.BoolOp):
+            cs = [self.expr(v, loc) for v in e.values]
+            if any(t != "bool" for _, t in cs):
+                raise Unsupported(f"boolean operator on non-booleans {txt}")
+            op = " || " if isinstance(e.op, ast.Or) else " && "
+            return "(" + op.join(c for c, _ in cs) + ")", "bool"
+        if isinstance(e, ast.UnaryOp) and isinstance(e.op, ast.Not):
+            c, t = self.truth(e.operand, loc)
+            return f"(negb {c})", "bool"
+        raise Unsupported(f"expression {txt}")
+
+    def truth(self, e, loc) -> tuple[str, str]:
+        """Python truthiness of an expression in boolean position."""
+        c, t = self.expr(e, loc)
+        if t == "bool":
+            return c, t
+        if t == "option name":
+            return f"(negb (is_empty {c}))", "bool"
+        if t == "name":
+            return f"(negb (is_empty (Some {c})))", "bool"
+        raise Unsupported(f"truth value of {t}")
+
+    # ---- state tuples
+    def tup(self, vs, loc=None) -> str:
+        if not vs:
+            return "tt"
+        names = [self.vars[v][0] for v in vs]
+        return names[0] if len(names) == 1 else "(" + ", ".join(names) + ")"
+
+    def tup_type(self, vs) -> str:
+        if not vs:
+            return "unit"
+        ts = [self.vars[v][1] for v in vs]
+        return ts[0] if len(ts) == 1 else "(" + " * ".join(ts) + ")"
+
+    def pat(self, vs) -> str:
+        if not vs:
+            return "_"
+        names = [self.vars[v][0] for v in vs]
+        return names[0] if len(names) == 1 else "'(" + ", ".join(names) + ")"
+
+    # ---- statements.  k(loc) = code after the block ; in_loop: (loop_written) when inside a while body
+    def block(self, stmts, loc, k, in_loop=None) -> str:
+        if not stmts:
+            return k(loc)
+        s, rest = stmts[0], stmts[1:]
+        nxt = lambda l: self.block(rest, l, k, in_loop)   # noqa: E731
+        if isinstance(s, ast.Expr) and isinstance(s.value, ast.Constant):
+            return nxt(loc)                                            # docstring
+        if isinstance(s, ast.Assert):
+            c, _ = self.truth(s.test, loc)
+            return f"if {c} then\n  {nxt(loc)}\nelse None   (* AssertionError *)"
+        if isinstance(s, ast.Expr) and isinstance(s.value, ast.Call) and ast.unparse(s.value.func).startswith("logger."):
+            return nxt(loc)                                            # logging only
+        if isinstance(s, ast.Return):
+            if s.value is None:
+                c, t = "tt", "unit"
+            else:
+                c, t = self.call_or_expr(s.value, loc, None)
+                if c is None:
+                    raise Unsupported("return of a call")
+            if t != self.ret:
+                raise Unsupported(f"return type {t}, expected {self.ret}")
+            r = f"({c}, {self.tup(self.written)})"
+            return f"Some (inl {r})" if in_loop is not None else f"Some {r}"
+        if isinstance(s, ast.Assign) and len(s.targets) == 1:
+            tgt = ast.unparse(s.targets[0])
+            if isinstance(s.value, ast.Call):
+                return self.call(s.value, loc, tgt, nxt)
+            c, t = self.expr(s.value, loc)
+            return self.bind(tgt, c, t, loc, nxt)
+        if isinstance(s, ast.AugAssign) and isinstance(s.op, ast.Add):
+            inc, it = self.expr(s.value, loc)
+            if it != "N":
+                raise Unsupported("+= of a non-integer")
+            if isinstance(s.target, ast.Subscript):
+                d = ast.unparse(s.target.value)
+                dc, dt = self.expr(s.target.value, loc)
+                kc, kt = self.expr(s.target.slice, loc)
+                if dt != "list (name * N)" or kt != "name":
+                    raise Unsupported(f"+= on {ast.unparse(s.target)}")
+                return self.bind(d, f"cnt_set {kc} (N.add (cnt_get {kc} {dc}) {inc}) {dc}", dt, loc, nxt)
+            tgt = ast.unparse(s.target)
+            c, t = self.expr(s.target, loc)
+            if t != "N":
+                raise Unsupported("+= on a non-integer")
+            return self.bind(tgt, f"N.add {c} {inc}", "N", loc, nxt)
+        if isinstance(s, ast.Expr) and isinstance(s.value, ast.Call):
+            f = s.value.func
+            if isinstance(f, ast.Attribute) and f.attr == "add" and len(s.value.args) == 1:
+                st = ast.unparse(f.value)
+                sc, stt = self.expr(f.value, loc)
+                a, at = self.add_arg(s.value.args[0], loc)
+                if stt != "list name":
+                    raise Unsupported(f".add on {stt}")
+                if at == "name":
+                    return self.bind(st, f"sadd {a} {sc}", stt, loc, nxt)
+                if at == "option name":       # set.add(value.name) where the name is known to be set at this point
+                    v = self.vars[st][0]
+                    return (f"match {a} with\n  | None => None   (* .add(None): cannot happen, the name was just set *)\n"
+                            f"  | Some x_ => let {v} := sadd x_ {sc} in\n  {nxt(loc)}\n  end")
+                raise Unsupported(f".add({at})")
+            return self.call(s.value, loc, None, nxt)
+        if isinstance(s, ast.If):
+            c, t = self.truth(s.test, loc)
+            ends_ret = s.body and isinstance(s.body[-1], ast.Return)
+            if ends_ret and not s.orelse:
+                a = self.block(s.body, loc, lambda l: "None", in_loop)
+                return f"if {c} then\n  {a}\nelse\n  {nxt(loc)}"
+            if not any(isinstance(n, ast.Return) for n in ast.walk(s)):
+                w = self._written(s.body + s.orelse)
+                fin = lambda l: f"Some {self.tup(w)}"     # noqa: E731
+                a = self.block(s.body, loc, fin, None)
+                b = self.block(s.orelse, loc, fin, None) if s.orelse else f"Some {self.tup(w)}"
+                return (f"match (if {c} then\n  {a}\nelse\n  {b}) with\n| None => None\n| Some {self.pat(w).lstrip(chr(39))} =>\n  {nxt(loc)}\nend")
+            raise Unsupported("if with a return that is not the last statement of an else-less branch")
+        if isinstance(s, ast.While):
+            if s.orelse:
+                raise Unsupported("while/else")
+            self.nloops += 1
+            lname = f"{self.name}_while{self.nloops}"
+            lw = self._written(s.body)
+            params = [v for v in self.sig]                       # every declared variable is passed
+            locs = [(k2, v2) for k2, v2 in loc.items()]           # and every local defined so far
+            cond, ct = self.expr(s.test, loc)
+            if ct != "bool":
+                raise Unsupported("while on a non-boolean")
+            rec_args = " ".join([self.vars[v][0] for v in params] + [c for _, (c, _) in locs])
+            body = self.block(s.body, dict(loc), lambda l: f"{lname} fuel_ {rec_args}", in_loop=lw)
+            exit_state = [v for v in params if v in self.written] + []
+            exit_t = self.tup([v for v in self.sig if v in self.written])
+            loc_t = ", ".join(c for _, (c, _) in locs)
+            exit_val = f"({exit_t}, ({loc_t}))" if locs else f"({exit_t}, tt)"
+            res_ty = (f"option (({self.ret} * {self.tup_type(self.written)}) + ({self.tup_type(self.written)} * "
+                      + ("(" + " * ".join(t for _, (_, t) in locs) + ")" if locs else "unit") + "))")
+            sig = " ".join([f"({self.vars[v][0]} : {self.vars[v][1]})" for v in params] + [f"({c} : {t})" for _, (c, t) in locs])
+            self.aux.append(
+                f"Fixpoint {lname} (fuel : nat) {sig} : {res_ty} :=\n  match fuel with\n  | O => None\n  | S fuel_ =>\n"
+                f"  if {cond} then\n  {body}\n  else Some (inr {exit_val})\n  end.\n")
+            lp = ("'(" + ", ".join(c for _, (c, _) in locs) + ")") if len(locs) > 1 else (locs[0][1][0] if locs else "_")
+            args = " ".join([self.vars[v][0] for v in params] + [c for _, (c, _) in locs])
+            wpat = self.pat([v for v in self.sig if v in self.written]).lstrip("'")
+            return (f"match {lname} fuel {args} with\n| None => None\n| Some (inl r_) => Some r_\n"
+                    f"| Some (inr ({wpat}, {lp.lstrip(chr(39))})) =>\n  {nxt(loc)}\nend")
+        raise Unsupported(f"statement {ast.unparse(s)[:80]}")
+
+    def add_arg(self, e, loc):
+        return self.expr(e, loc)
+
+    def bind(self, tgt: str, c: str, t: str, loc, nxt) -> str:
+        if tgt in self.vars:
+            v, vt = self.vars[tgt]
+            if vt == "option name" and t == "name":
+                c, t = f"Some {c}", "option name"
+            if vt != t:
+                raise Unsupported(f"assignment of {t} to {tgt} : {vt}")
+            return f"let {v} := {c} in\n  {nxt(loc)}"
+        if not tgt.isidentifier():
+            raise Unsupported(f"assignment target {tgt}")
+        l2 = dict(loc)
+        l2[tgt] = (tgt + "_v", t)
+        return f"let {tgt}_v := {c} in\n  {nxt(l2)}"
+
+    def call_or_expr(self, e, loc, _):
+        if isinstance(e, ast.Call):
+            return None, None
+        return self.expr(e, loc)
+
+    def call(self, call: ast.Call, loc, tgt, nxt) -> str:
+        txt = ast.unparse(call.func)
+        if txt not in self.calls:
+            raise Unsupported(f"call of {txt}")
+        callee = self.calls[txt]
+        params = [a.arg for a in callee.f.args.args if a.arg != "self"]
+        if len(call.args) != len(params) or call.keywords:
+            raise Unsupported(f"call shape {ast.unparse(call)}")
+        args = []
+        for v in callee.sig:
+            caller_txt = self._callee_var(callee, v, call)
+            c, t = self.expr(ast.parse(caller_txt, mode="eval").body, loc)
+            if t != callee.vars[v][1]:
+                raise Unsupported(f"argument {caller_txt} : {t} for {v} : {callee.vars[v][1]}")
+            args.append(c)
+        wnames = [self.vars[self._callee_var(callee, w, call)][0] for w in callee.written]
+        wp = "_" if not wnames else (wnames[0] if len(wnames) == 1 else "(" + ", ".join(wnames) + ")")
+        fuel = "fuel " if callee.uses_fuel else ""
+        res = "res_"
+        after = self.bind(tgt, res, callee.ret, loc, nxt) if tgt is not None else nxt(loc)
+        return (f"match {callee.name} {fuel}{' '.join(args)} with\n| None => None\n| Some ({res}, {wp}) =>\n  {after}\nend")
+
+    def emit(self) -> str:
+        body = self.block(self.f.body, {}, lambda l: f"Some (tt, {self.tup(self.written)})" if self.ret == "unit" else "None")
+        sig = " ".join(f"({self.vars[v][0]} : {self.vars[v][1]})" for v in self.sig)
+        fuel = "(fuel : nat) " if self.uses_fuel else ""
+        head = f"Definition {self.name} {fuel}{sig} : option ({self.ret} * {self.tup_type(self.written)}) :=\n  {body}.\n"
+        return "".join(self.aux) + head
+
+
+def find(mod: ast.Module, qual: str) -> ast.FunctionDef:
+    parts = qual.split(".")
+    body = mod.body
+    for i, p in enumerate(parts):
+        for n in body:
+            if isinstance(n, (ast.ClassDef, ast.FunctionDef)) and n.name == p:
+                if i == len(parts) - 1:
+                    if not isinstance(n, ast.FunctionDef):
+                        raise Unsupported(f"{qual} is not a function")
+                    return n
+                body = n.body
+                break
+        else:
+            raise Unsupported(f"{qual} not found")
+    raise Unsupported(qual)
+
+
+def translate_c15(repo: str) -> str:
+    import os
+    na = ast.parse(open(os.path.join(repo, "src/onnx_ir/_name_authority.py")).read())
+    nm = ast.parse(open(os.path.join(repo, "src/onnx_ir/passes/common/naming.py")).read())
+    AUTH = {"self._value_counter": ("vc_", "N"), "self._node_counter": ("nc_", "N"),
+            "self._value_names": ("vnames_", "list name"), "self._node_names": ("nnames_", "list name")}
+    out = [GEN_HEADER]
+    uv = Fn(find(na, "NameAuthority._unique_value_name"), "py_unique_value_name",
+            {k: AUTH[k] for k in ("self._value_counter", "self._value_names")}, "name", {})
+    out.append(uv.emit())
+    un = Fn(find(na, "NameAuthority._unique_node_name"), "py_unique_node_name",
+            {"self._node_counter": AUTH["self._node_counter"], "self._node_names": AUTH["self._node_names"],
+             "op_type": ("op_type_", "name")}, "name", {})
+    out.append(un.emit())
+    rv = Fn(find(na, "NameAuthority.register_or_name_value"), "py_register_or_name_value",
+            {"self._value_counter": AUTH["self._value_counter"], "self._value_names": AUTH["self._value_names"],
+             "value.name": ("value_name_", "option name")}, "unit", {"self._unique_value_name": uv})
+    out.append(rv.emit())
+    rn = Fn(find(na, "NameAuthority.register_or_name_node"), "py_register_or_name_node",
+            {"self._node_counter": AUTH["self._node_counter"], "self._node_names": AUTH["self._node_names"],
+             "node.name": ("node_name_", "option name"), "node.op_type": ("node_op_type_", "name")}, "unit",
+            {"self._unique_node_name": un})
+    out.append(rn.emit())
+    fr = Fn(find(nm, "_find_and_record_next_unique_name"), "py_find_and_record_next_unique_name",
+            {"preferred_name": ("preferred_name_", "name"), "used_names": ("used_names_", "list name"),
+             "counter": ("counter_", "list (name * N)"), "reserved_names": ("reserved_names_", "list name")}, "name", {})
+    out.append(fr.emit())
+    gv = Fn(find(nm, "SimpleNameGenerator.generate_value_name"), "py_generate_value_name",
+            {"value.name": ("value_name_", "option name")}, "name", {})
+    out.append(gv.emit())
+    gn = Fn(find(nm, "SimpleNameGenerator.generate_node_name"), "py_generate_node_name",
+            {"node.name": ("node_name_", "option name")}, "name", {})
+    out.append(gn.emit())
+    VAL = {"value.name": ("value_name_", "option name"), "used_names": ("used_names_", "list name"),
+           "counter": ("counter_", "list (name * N)"), "self._reserved_value_names": ("reserved_value_names_", "list name")}
+    NOD = {"node.name": ("node_name_", "option name"), "used_names": ("used_names_", "list name"),
+           "counter": ("counter_", "list (name * N)"), "self._reserved_node_names": ("reserved_node_names_", "list name")}
+    vcalls = {"self._name_generator.generate_value_name": gv, "_find_and_record_next_unique_name": fr}
+    ncalls = {"self._name_generator.generate_node_name": gn, "_find_and_record_next_unique_name": fr}
+    for q, cn, vs, cs in (("NameFixPass._assign_value_name", "py_assign_value_name", VAL, vcalls),
+                          ("NameFixPass._fix_duplicate_value_name", "py_fix_duplicate_value_name", VAL, vcalls),
+                          ("NameFixPass._assign_node_name", "py_assign_node_name", NOD, ncalls),
+                          ("NameFixPass._fix_duplicate_node_name", "py_fix_duplicate_node_name", NOD, ncalls)):
+        out.append(Fn(find(nm, q), cn, vs, "bool", cs).emit())
+    return "\n".join(out)
+
+
+
+def generate(ck) -> bool:
+    try:
+        text = translate_c15(common.REPO)
+    except (Unsupported, SyntaxError, OSError, KeyError, ValueError) as e:
+        ck.gen_failed("C15Gen", e)
+        return False
+    ck.gen("C15Gen", text)
+    return True
+
 
 # =========================================================================== (A) histories on a real ir.Graph
 
@@ -1312,6 +1740,7 @@ def run(ck) -> None:
                     "C15_fix_post / C15_fix_keeps_unique(_node) / C15_fix_only_names (B, for the code after fix 25cf9b5, under "
                     "the hypotheses WF0 / closed_run / well_scoped / NoDup nodes stated in Property.v, each shown necessary by a "
                     "_refuted witness that is a known finding) and C15_rename_all_or_nothing (C)")
+    generate(ck)
     ck.prove()
     corpus = _load_corpus()
     q = not ck.thorough
